@@ -2,11 +2,11 @@
 # usage: tools/confirm_seed.sh <seed dir with patch.diff demo.diff demo_cmd.txt> <pool target dir> [extra test cmd ...]
 # Confirms: demo passes without the change, fails with it; extra test commands (existing tests) pass with the change.
 D=$(readlink -f "$1"); POOL=$2; shift 2
-WT=/tmp/seed-cf-$$
-git -C /repo worktree add -q --detach "$WT" HEAD || exit 2
+WT=/tmp/seed-cf
+git -C /repo worktree remove --force "$WT" >/dev/null 2>&1; git -C /repo worktree add -q --detach "$WT" HEAD || exit 2
 trap 'git -C /repo worktree remove --force "$WT" >/dev/null 2>&1 || true' EXIT
 cd "$WT" || exit 2
-export CARGO_TARGET_DIR=$POOL CARGO_NET_OFFLINE=true
+export CARGO_TARGET_DIR=$POOL CARGO_NET_OFFLINE=true CARGO_INCREMENTAL=0
 git apply "$D/demo.diff" || { echo "demo.diff does not apply"; exit 2; }
 CMD=$(grep -v '^#' "$D/demo_cmd.txt" | grep cargo | head -1)
 echo "demo cmd: $CMD"
